@@ -30,6 +30,7 @@ MAX_STORED_PER_SIG = 4
 from ..modelops import DUMP_CALLS as _DC  # noqa: E402
 
 modelops_calls = [n for n, _, _ in _DC]
+from ..modelops import json_equal as modelops_json_equal  # noqa: E402
 
 
 def site_name(site: str) -> str:
@@ -119,6 +120,11 @@ def judge_b(site: str, r: Dict[str, Any], alias_pairs: List[List[str]], backend:
     shown = json.dumps(out, ensure_ascii=True)
     if len(shown) > 400:
         shown = shown[:400] + "..."
+    if "expected" in r and not modelops_json_equal(out, dec(r["expected"])):
+        viol.append(({"class": "stale-emission-after-in-place-edit", "site": site_name(site)},
+                     f"{site_name(site)}({r['variant']}) under {backend}: the typed object was edited in place ({r.get('edits')} "
+                     f"edits) and emitted again by the same handler/function: {shown}; a fresh one emits "
+                     f"{json.dumps(dec(r['expected']), ensure_ascii=True)[:300]}"))
     populated = {tuple(a) for a in r["aliases"]}
     for wire, attr in alias_pairs:
         if attr in keys:
@@ -175,7 +181,7 @@ def run(tier: str, only=None) -> core.Result:
     a_cases = mcases if do_a else []
     a_wire = [{"op": "validate", "target": c["target"], "wire": enc(c["wire"]), "lossless": True} for c in a_cases]
     parent_sites = serialisers.discover_sites()
-    b_wire = [{"op": "drive", "site": s["site"]} for s in parent_sites] if do_b else []
+    b_wire = [{"op": "drive", "site": serialisers.driver_site_of(s) or s["site"]} for s in parent_sites] if do_b else []
 
     # part B runs in the background from the start: every serialiser site is driven in a process of its own (so that what
     # one driver instantiated cannot influence the next), once more for the determinism audit
@@ -305,13 +311,17 @@ def run(tier: str, only=None) -> core.Result:
     if do_b:
         known = set(hello["pydantic"]["drivers"])
         found = {s["site"] for s in parent_sites}
-        for s in sorted(known - found):
+        through = {serialisers.driver_site_of(s) for s in parent_sites} - {None}
+        for s in sorted(known - found - through):
             res.harness_errors.append(f"driver for a serialiser that no longer exists: {s}")
         for si, s in enumerate(parent_sites):
-            row = {"site": s["site"], "calls": s["calls"], "driver": s["site"] in known, "variants": {},
+            drv = serialisers.driver_site_of(s)
+            row = {"site": s["site"], "calls": s["calls"], "driver": drv is not None, "variants": {},
                    "variants_with_populated_aliases": 0, "violating_variants": 0}
+            if drv and drv != s["site"]:
+                row["driven_through"] = drv
             site_table.append(row)
-            if s["site"] not in known:
+            if drv is None:
                 res.harness_errors.append(f"discovered serialiser without a driver: {s['site']} ({s['calls']})")
                 continue
             for n in pools:
@@ -661,6 +671,8 @@ def run(tier: str, only=None) -> core.Result:
         "input mutated after validation: judged absolutely only at declared containers (the object itself, nested models, members declared List[...] / Dict[...] / dict and declared items of such lists); inside free-form values (Any, values of Dict[str, Any], unknown members) both backends keep the caller's objects - counted, not judged (C09 demands that the backends agree there)",
         "mutation isolation: every validation is given its own freshly decoded wire object, so an object shared by two results cannot come from the input; immutable values (str, int, None, tuple) may be shared; the in-place mutations are undone after each case",
         "the JSON path is json.loads(model_dump_json(by_alias=True, exclude_none=True)) parsed with the standard library",
+        "part B, resend: a typed object is edited in place (attribute assignment, a new key in its dict members) and handed to the same handler/function again; what is emitted must equal what a fresh handler emits for the object as it is now",
+        "a serialiser call that moved into a private helper is driven through the function of the same file that calls the helper",
         "part B judges names only: the produced JSON must not contain, at any depth, the Python attribute name of any aliased member (no generated input uses those words as data keys) and must contain the wire name of every aliased member the input populated",
         "the sites in send_message.py dump an *incoming* response for a log line / the caller; they are driven like the others",
         "serialisers reached only through code the AST walk cannot see (dynamic attribute names other than getattr(x, 'model_dump...')) are not discovered",
